@@ -86,9 +86,14 @@ def check_logic(name):
             return (f'C07|definition|{family_tag(name)}|{tag}|{",".join(args)}',
                     f'{name}: {tag} at ({",".join(args)}): operator gives {got}, its definition gives {want}', key)
         return ('ok', key)
+    # "transparent where not native": by the documentation (B3E and GO have a native assertion) and by the package's own
+    # declaration -- a logic that does not declare Assertion native must not have a non-transparent one
+    declared_native = any(str(o) == 'Assertion' for o in Meta.native_operators)
     for a in V:
         if base not in ('B3E', 'GO'):
             yield law('assertion-transparent', (a,), ast[(a,)], a)
+        if not declared_native:
+            yield law('assertion-transparent-where-not-declared-native', (a,), ast[(a,)], a)
         if base == 'GO':
             yield law('*A:=A&A', (a,), ast[(a,)], conj[a, a])
         for b in V:
